@@ -121,11 +121,11 @@ def op_with_name(r, label, name):
     return o
 
 
-@rule("R06.2", "C06", "chk_hybrid_dep: pending effects of referenced temporaries are sequenced in operand order before the consumer (after it only on request); unreferenced ones stay pending; every effect-producing callback wraps its result", min_instances=12)
-def r06_2(ctx):
+def pending_effect_placement(ctx):
+    """chk_hybrid_dep puts the pending effects of the temporaries a consumer reads in front of it (behind it on request), in the
+    order of the consumer's operands - whatever numbers the temporaries carry (h_tmp9 before h_tmp10: the counter is never
+    reset, so the numbers depend on what the transformer compiled before)"""
     idx = get_index(ctx.env)
-    op_list_completeness(ctx)
-    condition_effects_are_sequenced(ctx)
     for order, exp in ((None, ["s9", "s10", "consumer"]), ("HYB_THEN_SEQ", ["s9", "s10", "consumer"]), ("SEQ_THEN_HYB", ["consumer", "s9", "s10"])):
         r = Runner(idx, keep_real=("chk_hybrid_dep",))
         box = {}
@@ -147,6 +147,14 @@ def r06_2(ctx):
             got = seq_effects(v) if isinstance(v, AObj) and v.cls == "Sequence" else [lab(v)]
             ctx.check(f"chk_hybrid_dep[order={order or 'default'}] placement", got == exp, str(exp), str(got), fn_where(idx, fi))
             ctx.check(f"chk_hybrid_dep[order={order or 'default'}] leaves unreferenced pending effects pending", sorted(box["d"]) == ["h_tmp3"], "['h_tmp3']", str(sorted(box["d"])), fn_where(idx, fi))
+
+
+@rule("R06.2", "C06", "chk_hybrid_dep: pending effects of referenced temporaries are sequenced in operand order before the consumer (after it only on request); unreferenced ones stay pending; every effect-producing callback wraps its result", min_instances=12)
+def r06_2(ctx):
+    idx = get_index(ctx.env)
+    op_list_completeness(ctx)
+    condition_effects_are_sequenced(ctx)
+    pending_effect_placement(ctx)
     # nothing pending / nothing referenced -> the effect itself
     r = Runner(idx, keep_real=("chk_hybrid_dep",))
     def args0():
